@@ -146,9 +146,9 @@ def programs(tier):
 # ---------------------------------------------------------------------------------------------
 # model documents
 
-def handlers(c):
+def handlers(c, include_reply=False):
     """[(part label, part display, Method)] for all handlers of a program."""
-    out = [("contract", c.name, m) for m in c.methods]
+    out = [("contract", c.name, m) for m in c.methods if include_reply or m.kind != "reply"]
     for i in c.interfaces:
         out.extend((i.module, i.name, m) for m in i.methods)
     return out
